@@ -576,7 +576,7 @@ String Json::stripComments(const String& data)
       if (*src == '\\' && src[1])
       {
         *(dest++) = *(src++);
-        goto checkStr;
+        continue; // the loop increment copies the escaped character; the literal goes on
       }
       if (*src == '"')
       {
